@@ -34,6 +34,20 @@ class C07(Prop):
                    "queue behind hook H1; `Instant`-based _at forms compared after rounding to 1 ms"]
     modelled_not_verified = "all Rust code incl. futures' async state machines; the executor is the harness', not LocalPool/ThreadPool"
 
+    # translator tie: DelayObserver / ObserveOnObserver (compiler-expanded, translated), both flavours, in closed form:
+    # one scheduled task per notification with the configured delay, handle appended, error of delay forwarded at
+    # once; task bodies = one call on the operator's own slot; wiring of actual_subscribe pinned
+    tie_modules = {
+        "RxModel.GenTie.Delay": ["delay"],
+        "RxModel.GenTie.DelayThreads": ["delay"],
+        "RxModel.GenTie.ObserveOn": ["observeon"],
+        "RxModel.GenTie.ObserveOnThreads": ["observeon"],
+        "RxModel.GenTie.WiringDelay": ["delay"],
+        "RxModel.GenTie.WiringDelayThreads": ["delay"],
+        "RxModel.GenTie.WiringObserveOn": ["observeon"],
+        "RxModel.GenTie.WiringObserveOnThreads": ["observeon"],
+    }
+
     def cases(self, tier, seed):
         rng = random.Random(seed + 7)
         out = []
